@@ -40,22 +40,23 @@ func init() {
 
 // charGen is the resolved shape of CharRecipe.Generate.
 type charGen struct {
-	fn       *ssa.Function
-	recvCopy *ssa.Alloc
-	builder  *ssa.Call
-	chars    ssa.Value
-	draw     *ssa.Call
-	viaPick  bool      // draw is a call of a uniform-pick helper on chars
-	elem     ssa.Value // the drawn character (load of chars[draw], or the pick call)
-	drawIdx  *ssa.IndexAddr
-	tokens   *ssa.MakeSlice
-	tokStore *ssa.Store
-	inner    *core.Counted
-	retry    *core.Loop
-	pwd      *ssa.Alloc
-	filter   *ssa.Call
-	loops    []*core.Loop
-	problems []string
+	fn         *ssa.Function
+	recvCopy   *ssa.Alloc
+	builder    *ssa.Call
+	chars      ssa.Value
+	draw       *ssa.Call
+	viaPick    bool      // draw is a call of a uniform-pick helper on chars
+	elem       ssa.Value // the drawn character (load of chars[draw], or the pick call)
+	drawIdx    *ssa.IndexAddr
+	tokens     *ssa.MakeSlice
+	tokStore   *ssa.Store
+	inner      *core.Counted
+	innerRange *core.RangeInfo // alternative: for i := range tokens
+	retry      *core.Loop
+	pwd        *ssa.Alloc
+	filter     *ssa.Call
+	loops      []*core.Loop
+	problems   []string
 }
 
 func resolveCharGen(p *core.Program) (*charGen, string) {
@@ -167,11 +168,13 @@ func resolveCharGen(p *core.Program) (*charGen, string) {
 	if l := core.InnermostLoop(g.loops, g.draw.Block()); l != nil {
 		if c, ok := core.AsCounted(l); ok {
 			g.inner = c
+		} else if ri, ok := core.AsRange(l); ok && ri.Kind == "slice" {
+			g.innerRange = ri
 		}
 	}
 	if g.tokens != nil {
 		for _, l := range core.LoopsContaining(g.loops, g.tokens.Block()) {
-			if g.inner == nil || l != g.inner.Loop {
+			if (g.inner == nil || l != g.inner.Loop) && (g.innerRange == nil || l != g.innerRange.Loop) {
 				g.retry = l
 				break
 			}
@@ -353,6 +356,23 @@ func checkDrawShape(p *core.Program, r *core.Report, g *charGen, r22, r23 string
 	}
 
 	// R2.3
+	if g.inner == nil && g.innerRange != nil && g.tokens != nil && g.tokStore != nil {
+		// `for i := range tokens`: a full sweep of the candidate slice itself
+		ri := g.innerRange
+		ia := g.tokStore.Addr.(*ssa.IndexAddr)
+		r.Check(core.StripType(ri.X) == ssa.Value(g.tokens), r23, name, "position loop ranges over the candidate slice (all Length positions)", p.InstrPos(g.tokStore), core.Describe(ri.X))
+		r.Check(ia.Index == ri.Index, r23, name, "drawn character is stored at tokens[i]", p.InstrPos(g.tokStore), core.Describe(ia.Index))
+		uncond := true
+		for _, la := range ri.Loop.Latch {
+			if !g.tokStore.Block().Dominates(la) || !g.draw.Block().Dominates(la) {
+				uncond = false
+			}
+		}
+		r.Check(uncond, r23, name, "draw and store happen on every iteration", p.InstrPos(g.tokStore), "")
+		r.Check(recipeField(g.tokens.Len, "Length"), r23, name, "candidate has exactly Length positions (make([]Token, Length))", p.InstrPos(g.tokens), core.Describe(g.tokens.Len))
+		checkAtomTypeToken(p, r, g, r23)
+		return
+	}
 	if g.inner == nil {
 		r.Fail(r23, name, "draw lies in a counted per-position loop", pos, "the draw is not inside a counted loop (one draw reused for all positions?)")
 		return
@@ -375,22 +395,7 @@ func checkDrawShape(p *core.Program, r *core.Report, g *charGen, r22, r23 string
 	}
 	r.Check(uncond, r23, name, "draw and store happen on every iteration", p.InstrPos(g.tokStore), "")
 	r.Check(recipeField(g.tokens.Len, "Length"), r23, name, "candidate has exactly Length positions (make([]Token, Length))", p.InstrPos(g.tokens), core.Describe(g.tokens.Len))
-	// token type constant AtomType
-	okType := false
-	if ld, ok := g.tokStore.Val.(*ssa.UnOp); ok {
-		if al, ok := ld.X.(*ssa.Alloc); ok {
-			lit := core.StructLiteral(al)
-			if v := lit[tokenTypeField(p)]; v != nil {
-				if k, isC := core.ConstInt(v); isC {
-					at, _, okC := core.ConstOf(p.LibPkg.Types, "AtomType")
-					if okC && at.String() == fmt.Sprint(k) {
-						okType = true
-					}
-				}
-			}
-		}
-	}
-	r.Check(okType, r23, name, "each position is one AtomType token", p.InstrPos(g.tokStore), "")
+	checkAtomTypeToken(p, r, g, r23)
 	// MEM: Length is the same value for make and loop (stable receiver copy field)
 	if g.recvCopy != nil {
 		eff := core.GetEff(p)
@@ -406,6 +411,26 @@ func checkDrawShape(p *core.Program, r *core.Report, g *charGen, r22, r23 string
 		}
 		r.Check(c1 == c2, r23, name, "make length and loop bound are the same Length value (no write to Length in between)", p.InstrPos(g.tokens), "")
 	}
+}
+
+// checkAtomTypeToken: the stored token literal has the AtomType constant.
+func checkAtomTypeToken(p *core.Program, r *core.Report, g *charGen, r23 string) {
+	name := core.FuncName(g.fn)
+	okType := false
+	if ld, ok := g.tokStore.Val.(*ssa.UnOp); ok {
+		if al, ok := ld.X.(*ssa.Alloc); ok {
+			lit := core.StructLiteral(al)
+			if v := lit[tokenTypeField(p)]; v != nil {
+				if k, isC := core.ConstInt(v); isC {
+					at, _, okC := core.ConstOf(p.LibPkg.Types, "AtomType")
+					if okC && at.String() == fmt.Sprint(k) {
+						okType = true
+					}
+				}
+			}
+		}
+	}
+	r.Check(okType, r23, name, "each position is one AtomType token", p.InstrPos(g.tokStore), "")
 }
 
 // checkWholeCandidateRejection: R2.4.
@@ -424,7 +449,7 @@ func checkWholeCandidateRejection(p *core.Program, r *core.Report, g *charGen, r
 		case *ssa.IndexAddr:
 			for _, rr := range core.Referrers(x) {
 				if st, ok := rr.(*ssa.Store); ok && st.Addr == x {
-					in := g.inner != nil && g.inner.Loop.Blocks[st.Block()] && st == g.tokStore
+					in := st == g.tokStore && ((g.inner != nil && g.inner.Loop.Blocks[st.Block()]) || (g.innerRange != nil && g.innerRange.Loop.Blocks[st.Block()]))
 					r.Check(in, rule, name, "candidate positions are written only by the draw loop", p.InstrPos(st), "a second writer can fix up a rejected candidate, favouring some strings")
 				}
 			}
